@@ -16,6 +16,9 @@ HERE = os.path.dirname(os.path.abspath(__file__))
 VERIF = os.path.dirname(HERE)
 REPO = os.environ.get("SIM_REPO", "/repo")
 KNOWN = os.path.join(VERIF, "known_findings.json")
+# a run against a scratch tree (SIM_REPO, used for seeded changes) must not overwrite the evidence of the real tree
+EVID_DIR = os.environ.get("SIM_EVIDENCE_DIR", os.path.join(VERIF, "evidence"))
+REPLAY_DIR = os.environ.get("SIM_REPLAY_DIR", os.path.join(VERIF, "replays"))
 
 sys.path.insert(0, HERE)
 from props import PROPS  # noqa: E402
@@ -360,9 +363,9 @@ def report(b, prop, P, tier, seed, first, results, t0, args):
             exit_code = 2
             continue
         vd = [v for v in v1["violations"] if v["prop"] == prop][0]
-        os.makedirs(os.path.join(VERIF, "replays"), exist_ok=True)
+        os.makedirs(REPLAY_DIR, exist_ok=True)
         hsh = hashlib.sha256(json.dumps(mini, sort_keys=True).encode()).hexdigest()[:10]
-        rpath = os.path.join(VERIF, "replays", "%s-%s-%s.json" % (prop, r0["seed"], hsh))
+        rpath = os.path.join(REPLAY_DIR, "%s-%s-%s.json" % (prop, r0["seed"], hsh))
         with open(rpath, "w") as f:
             json.dump({"property": prop, "seed": r0["seed"], "tier": tier, "tree_hash": tree_hash(),
                        "expect": {"class": cls, "hash": v1.get("hash"), "detail": vd["detail"]},
@@ -435,8 +438,8 @@ def report(b, prop, P, tier, seed, first, results, t0, args):
         "wall_s": round(wall, 2),
         "violations": len(vio_info),
     }
-    os.makedirs(os.path.join(VERIF, "evidence"), exist_ok=True)
-    with open(os.path.join(VERIF, "evidence", prop + ".json"), "w") as f:
+    os.makedirs(EVID_DIR, exist_ok=True)
+    with open(os.path.join(EVID_DIR, prop + ".json"), "w") as f:
         json.dump(ev, f, indent=1)
     for l in lines:
         print(l)
